@@ -8,7 +8,7 @@ unset GOTOOLCHAIN GOSUMDB || true
 mkdir -p build/wazero evidence replays
 (cd extract && go build -o ../build/extract .)
 python3 lean/genmain.py
-(cd lean && lake build 2>&1 | grep -v '^trace' | tail -5)
+(cd lean && lake build 2>&1 | grep -v '^trace' | tail -5; for f in Driver/C*.lean; do t=modeld_$(basename $f .lean); lake build $t 2>&1 | grep -v '^trace' | tail -1; done)
 S=$(mktemp -d /tmp/verif-setup-XXXXXX)
 python3 - "$S" <<'PY'
 import sys, importlib.machinery, importlib.util
